@@ -237,6 +237,22 @@ def script_then_language(p):
                 yield (body[i - 1]["tag"], body[i]["tag"])
 
 
+def rule_types(p):
+    """types of the rules of a generated program in source order (helper lookups L8/L9 aside)"""
+    out = []
+
+    def walk(body):
+        for st in body:
+            if st["k"] == "R":
+                out.append(st["r"]["t"])
+            elif st["k"] == "L":
+                walk(st["body"])
+    for b in p["top"]:
+        if not (b["k"] == "L" and b["name"] in (8, 9)):
+            walk(b["body"])
+    return out
+
+
 def short_sig(fea):
     body = " ".join(l.strip() for l in fea.splitlines()
                     if l.strip() and not l.startswith(("@C", "table GDEF")))
@@ -736,7 +752,12 @@ def main(ctx):
                (len(A), len(B), len(C)))
     nA, nB, nC = (220, 220, 160) if quick else (len(A), len(B), 5000)
     pick = lambda lst, n: lst if n >= len(lst) else rng.sample(lst, n)
-    picked = [("A", pick(A, nA)), ("B", pick(B, nB)), ("C", pick(C, nC))]
+    # B: two lookups of the same rule type are where only flags/structure separate the lookups; in the quick
+    # sample half of B comes from that stratum (18% of the candidates)
+    same = [c for c in B if len(set(rule_types(c["p"]))) == 1]
+    rest = [c for c in B if len(set(rule_types(c["p"]))) != 1]
+    pickB = B if nB >= len(B) else pick(same, nB // 2) + pick(rest, nB - nB // 2)
+    picked = [("A", pick(A, nA)), ("B", pickB), ("C", pick(C, nC))]
     if not quick:
         for _, lst in picked:
             rng.shuffle(lst)
@@ -766,7 +787,7 @@ def main(ctx):
     first = True
     while todo and (first or time.time() - ctx.t0 < budget):
         packet, todo = todo[:size], todo[size:]
-        exp = evaluate(ctx, packet + (ccases if first else []), procs=4, timeout=240 if quick else 900, tag="eval")
+        exp = evaluate(ctx, packet + (ccases if first else []), procs=4, timeout=900, tag="eval")
         common.log("TLC evaluated %d programs" % len(exp))
         for origin, _ in picked:
             part = [c for c in packet if c["origin"] == origin]
